@@ -699,9 +699,33 @@ func (s *Server) handleRequest(req *dhcpv4.DHCPv4) (*dhcpv4.DHCPv4, error) {
 		}
 	}
 
+	// A lease found through the relay circuit-id may belong to another MAC (a
+	// replaced CPE on the same line). The binding then moves to the new MAC: the
+	// old entry must not stay next to the new one, or the address would be held
+	// twice and freed under the new client when the old entry ends.
+	var previousMAC net.HardwareAddr
+	if existingLease != nil && existingLease.MAC != nil && existingLease.MAC.String() != mac.String() {
+		previousMAC = existingLease.MAC
+	}
+
 	s.leasesMu.Lock()
+	if previousMAC != nil {
+		delete(s.leases, previousMAC.String())
+	}
 	s.leases[mac.String()] = lease
 	s.leasesMu.Unlock()
+
+	if previousMAC != nil {
+		pool.Rebind(previousMAC, mac)
+		if s.loader != nil {
+			if err := s.loader.RemoveSubscriber(ebpf.MACToUint64(previousMAC)); err != nil {
+				s.logger.Debug("Failed to remove previous MAC from fast path cache",
+					zap.String("mac", previousMAC.String()),
+					zap.Error(err),
+				)
+			}
+		}
+	}
 
 	// Maintain circuit-ID secondary index for relay-aware lookup
 	if len(lease.CircuitID) > 0 {
